@@ -2,7 +2,7 @@
 # Re-run every stored seeded change against its property's check (quick tier) and print caught/MISSED per seed.
 # usage: tools/recheck_seeds.sh [tier] [parallel]
 one() {
-  d=$1; n=$(basename $d); id=${n%-*}
+  d=$1; n=$(basename $d); id=$(cat $d/check_with 2>/dev/null || echo ${n%-*})
   D=/tmp/seedrepo.r$$.$n
   rm -rf $D; mkdir -p $D && cp -r /repo/src $D/src
   if ! ( cd $D && git apply $d/patch.diff ); then echo "$n APPLY-FAILED"; rm -rf $D; return; fi
